@@ -36,7 +36,9 @@ KeyTags(P, names, keys, k) ==
              expComps == UNION { CompsIn(res[x]) : x \in owners }
              expCounts == UNION { CountsIn(res[x]) : x \in owners } IN
          UNION { (IF Own(P, x, k)
-                  THEN (IF SameTree(e.vals[x], TreeX(res[x])) THEN {} ELSE {"value:" \o nm \o ":" \o x})
+                  THEN (LET ent == EntryOf(P, x, k)
+                            want == IF ent.k = "lit" THEN [lit |-> ent.ty, c |-> PiecesX(<<Text(ent.disp)>>)] ELSE TreeX(res[x]) IN
+                        IF SameTree(e.vals[x], want) THEN {} ELSE {"value:" \o nm \o ":" \o x})
                   ELSE (IF e.vals[x] = DefaultTree THEN {} ELSE {"not-defaulted:" \o nm \o ":" \o x}))
                  \cup (IF e.src[x] = SourceOf(P, x, k) THEN {} ELSE {"src:" \o nm \o ":" \o x})
                : x \in Range(P.locs) }
